@@ -118,3 +118,106 @@ impl Family for FReenter {
         Module { submodules: vec![], functions, imports: vec![] }
     }
 }
+
+
+/// A host function that calls back into the script and swallows the callee's error (returns nil
+/// instead): whatever the callee was doing when it failed, the caller continues with its value
+/// stack, call stack and variables as they were.
+pub struct FTryCall;
+
+impl FTryCall {
+    const DIMS: [u64; 3] = [10, 4, 3];
+}
+
+impl Family for FTryCall {
+    fn name(&self) -> &'static str {
+        "F-trycall"
+    }
+    fn len(&self) -> u64 {
+        Self::DIMS.iter().product()
+    }
+    fn case(&self, idx: u64) -> Module {
+        let mut callee = idx % 10;
+        let site = (idx / 10) % 4;
+        let host = idx / 40;
+        // host 2: pushes one argument and does not take it back after a failure - correct as long
+        // as the value is callable, because a failed call consumes its arguments like a successful one
+        let nargs = if host == 0 { 0 } else { 1 };
+        if host == 2 && callee == 8 {
+            callee = 0;
+        }
+        let params: Vec<String> = (0..nargs).map(|j| format!("p{j}")).collect();
+        let boom = || sg("_sink", C::GetProperty(b(int(1)), b(int(2))));
+        let mut fns: Vec<(String, Func)> = Vec::new();
+        let mut pre: Vec<C> = vec![sv("canary", int(5)), sv("cap", int(40))];
+        let fval: C = match callee {
+            0 => {
+                fns.push(("cb".into(), Func { params: params.clone(), cards: vec![C::Return(b(int(7)))] }));
+                C::Function("cb".into())
+            }
+            1 => {
+                fns.push(("cb".into(), Func { params: params.clone(), cards: vec![boom(), C::Return(b(int(7)))] }));
+                C::Function("cb".into())
+            }
+            2 => {
+                fns.push(("cb".into(), Func { params: params.clone(), cards: vec![sv("l1", int(1)), sv("l2", s("local string")), boom(), C::Return(b(int(7)))] }));
+                C::Function("cb".into())
+            }
+            3 => {
+                fns.push(("cb".into(), Func { params: params.clone(), cards: vec![sv("l1", int(1)), C::Repeat { n: b(int(3)), i: Some("i".into()), body: b(comp(vec![sv("in_loop", rv("i")), C::IfTrue(b(rv("i")), b(boom()))])) }, C::Return(b(int(7)))] }));
+                C::Function("cb".into())
+            }
+            4 => {
+                fns.push(("cb".into(), Func { params: params.clone(), cards: vec![sv("l1", int(1)), C::Return(b(add(int(1), call("inner", vec![int(2)]))))] }));
+                fns.push(("inner".into(), func(&["x"], vec![sv("deep", int(3)), boom(), C::Return(b(rv("x")))])));
+                C::Function("cb".into())
+            }
+            5 => {
+                pre.push(sv("cl", C::Closure(params.clone(), vec![sv("cap", add(rv("cap"), int(1))), sv("mine", int(2)), boom(), C::Return(b(int(7)))])));
+                rv("cl")
+            }
+            6 => C::NativeFunction("fail".into()),
+            7 => {
+                // a callee that wants more arguments than the host pushed
+                fns.push(("cb".into(), func(&["a", "bb", "c"], vec![C::Return(b(int(7)))])));
+                C::Function("cb".into())
+            }
+            8 => int(3),
+            _ => {
+                // fails with the value stack of the callee full of temporaries
+                fns.push(("cb".into(), Func { params: params.clone(), cards: vec![sg("_sink", add(int(1), add(int(2), add(int(3), C::GetProperty(b(int(1)), b(int(2))))))), C::Return(b(int(7)))] }));
+                C::Function("cb".into())
+            }
+        };
+        let name = match host {
+            0 => "try_call",
+            1 => "try_call1",
+            _ => "try_call1_keep",
+        };
+        let mut args = vec![fval];
+        if nargs == 1 {
+            args.push(int(11));
+        }
+        let the_call = native(name, args);
+        let mut cards = pre;
+        match site {
+            0 => cards.push(sg("res", add(int(1000), the_call))),
+            1 => cards.push(log2("res", add(add(int(1), int(2)), add(int(1000), the_call)))),
+            2 => {
+                cards.push(sv("acc", int(0)));
+                cards.push(C::Repeat { n: b(int(3)), i: Some("round".into()), body: b(comp(vec![sv("tmp", the_call), sv("acc", add(rv("acc"), add(rv("round"), int(1))))])) });
+                cards.push(log2("acc", rv("acc")));
+            }
+            _ => {
+                cards.push(sv("t", C::CreateTable));
+                cards.push(C::SetProperty(b(the_call), b(rv("t")), b(s("k"))));
+                cards.push(log2("t", rv("t")));
+            }
+        }
+        cards.push(log2("canary", rv("canary")));
+        cards.push(log2("cap", rv("cap")));
+        let mut functions = vec![("main".to_string(), func(&[], cards))];
+        functions.extend(fns);
+        Module { submodules: vec![], functions, imports: vec![] }
+    }
+}
